@@ -296,13 +296,21 @@ func vfC22Check(rep *vk.Report, d *vfDB, dbi, qi int, q *vfQuery, r *rand.Rand, 
 			rev := q.reverse != (cfg.dir == Prev)
 			if i := vfOrdered(res.rows, q.sort, rev); i >= 0 {
 				w := witness(cfg, res, fmt.Sprintf("sort order violated at row %d: %s then %s", i, vfRowText(res.rows[i-1], q.sort), vfRowText(res.rows[i], q.sort)))
-				rep.Violate("C22/sort-order", key(cfg), w)
+				cl := "C22/sort-order"
+				if lbl := vfC22Diagnose("order", "", "", res, q, cols, false); lbl != "" {
+					cl += "/" + lbl
+				}
+				rep.Violate(cl, key(cfg), w)
 			}
 			rep.Count("order_checks", 1)
 		} else if cfg.setup == "order" {
 			if i := vfOrdered(res.rows, cfg.reqCols, cfg.dir == Prev); i >= 0 {
 				w := witness(cfg, res, fmt.Sprintf("required order violated at row %d: %s then %s", i, vfRowText(res.rows[i-1], cfg.reqCols), vfRowText(res.rows[i], cfg.reqCols)))
-				rep.Violate("C22/required-order", key(cfg), w)
+				cl := "C22/required-order"
+				if lbl := vfC22Diagnose("order", "", "", res, q, cols, false); lbl != "" {
+					cl += "/" + lbl
+				}
+				rep.Violate(cl, key(cfg), w)
 			}
 			rep.Count("order_checks", 1)
 		}
@@ -337,6 +345,17 @@ func vfC22Diagnose(kind, msg, stack string, res *vfResult, q *vfQuery, cols []st
 		if strings.Contains(stack, "(*SemiJoin).Select") && strings.Contains(strategy, "semijoin-rev") &&
 			(strings.Contains(msg, "Sels.Get can't find") || strings.Contains(stack, "query.selEnd")) {
 			return "semijoin-reverse-select-off-index"
+		}
+		if strings.Contains(msg, "selOrg not full") && strings.Contains(stack, "(*Union).getLookup") &&
+			strings.Contains(stack, "(*Compatible).source2Has") && strings.Contains(strategy, "union-disjoint(") {
+			return "union-disjoint-lookup-source2Has"
+		}
+	case "order":
+		// order taken from the second source of a reversed semijoin by(...) although the column is not a by column
+		if strings.Contains(strategy, "semijoin-rev") && vfHasNode(q.root, func(n *vfNode) bool {
+			return n.op == "semijoin" && n.printBy && len(n.cols) > 0 && len(vfCommon(n.src.out, n.src2.out)) > len(n.cols)
+		}) {
+			return "semijoin-reverse-order-from-source2"
 		}
 	case "panic-setup":
 		if minmaxNoBy && (strings.Contains(msg, "column already exists") || strings.Contains(msg, "common columns not allowed") ||
